@@ -1,4 +1,6 @@
 import GeoVerif.Model.GridCodes
+import GeoVerif.Proofs.F64Round
+import GeoVerif.Props.C16
 /-!
 # C18 — property theorems (grid codes), integer level
 
@@ -6,7 +8,7 @@ The tables are the ones re-extracted from the sources (`Gen.Grid`), so each
 `decide` below is re-checked against what the code says now.
 -/
 namespace GeoVerif.Props.C18
-open GeoVerif GeoVerif.Grid
+open GeoVerif GeoVerif.Grid Gen.Grid
 
 /-! ### every table letter is found again at its own index (decode inverts encode letter-wise) -/
 theorem gars_digits_lookup : ∀ k < 10, lookup GARS.digits (chr GARS.digits k).toNat = some k := by decide
@@ -108,6 +110,351 @@ theorem chunks5_length (l : List Bool) : (Geohash.chunks5 l).length = l.length /
   | [_, _] => simp [Geohash.chunks5]
   | [_, _, _] => simp [Geohash.chunks5]
   | [_, _, _, _] => simp [Geohash.chunks5]
+
+/-! ### `scale_contains` (GARS, Georef): the one rounding in front of the integer codec
+
+The floating part of `GARS::Forward` / `Georef::Forward` is: normalise the longitude, move the pole inside, then
+per coordinate **one rounded multiplication by the integer `m` and a `floor`**.  Using the rounding theory of
+`Proofs/Round53.lean` (monotonicity of `round53`, integers up to 2^53 are fixed points, error bound) the coded cell
+index is related to the exact one for *all* inputs.  Constants (`m`, origins) come from `Gen.Grid`. -/
+
+/-- longitude argument of the scale multiplication, as prepared by `GARS::Forward`/`Georef::Forward` -/
+def prepLon (lon : F64) : F64 :=
+  let lon := MathF.angNormalize lon
+  if F64.eq lon MathF.hd then F64.neg MathF.hd else lon
+/-- latitude argument: `lat·(1 − ε/2)` at the pole -/
+def prepLat (lat : F64) : F64 :=
+  if F64.eq lat MathF.qd then lat * (.fin false (2 ^ 53 - 1) (-53)) else lat
+
+theorem gars_scaleWith_eq (mulf : F64 → F64 → Int) (lat lon : F64) :
+    GARS.scaleWith mulf lat lon =
+      if F64.gt (F64.abs lat) MathF.qd then .error "lat" else
+      if lat.isNaN || lon.isNaN then .ok none else
+      .ok (some (mulf (prepLon lon) (F64.ofInt GARS.m) - gars_lonorig * GARS.m,
+                 mulf (prepLat lat) (F64.ofInt GARS.m) - gars_latorig * GARS.m)) := rfl
+
+theorem gars_scale_eq : GARS.scale = GARS.scaleWith F64.mulFloorCoded := rfl
+theorem gars_scaleExact_eq : GARS.scaleExact = GARS.scaleWith F64.mulFloorExact := rfl
+
+/-- `prepLon` is NaN (infinite input) or a finite number in `[−180, 180)` congruent to `lon` mod 360 -/
+theorem prepLon_spec (lon : F64) :
+    (lon.isFinite = false ∧ prepLon lon = .nan) ∨
+    (lon.isFinite = true ∧ ∃ s m e, prepLon lon = .fin s m e ∧ -180 ≤ (prepLon lon).val ∧ (prepLon lon).val < 180 ∧
+      ∃ n : ℤ, (prepLon lon).val = lon.val - 360 * n) := by
+  cases lon with
+  | nan => left; exact ⟨rfl, rfl⟩
+  | inf s => left; exact ⟨rfl, rfl⟩
+  | fin sx mx ex =>
+    right
+    refine ⟨rfl, ?_⟩
+    obtain ⟨hfin, ⟨n, hn⟩, hb, _⟩ := C16.angNormalize_spec sx mx ex
+    unfold prepLon
+    simp only []
+    set y := MathF.angNormalize (F64.fin sx mx ex) with hy
+    obtain ⟨sy, my, ey, hyf⟩ := F64.exists_fin_of_isFinite y hfin
+    have h180 : (MathF.hd).val = 180 := by rw [C16.hd_eq, F64.val_fin]; simp
+    have hbb := abs_le.mp hb
+    by_cases hE : F64.eq y MathF.hd = true
+    · rw [if_pos hE]
+      have hyv : y.val = 180 := by rw [(F64.eq_fin_iff _ _ hfin rfl).mp hE, h180]
+      have hv : (F64.neg MathF.hd).val = -180 := by
+        show (F64.fin true 180 0).val = -180
+        rw [F64.val_fin]; simp
+      refine ⟨true, 180, 0, rfl, by rw [hv], by rw [hv]; norm_num, n + 1, ?_⟩
+      rw [hv]; push_cast; linarith
+    · rw [if_neg hE]
+      have hne : y.val ≠ 180 := by
+        intro hc; apply hE
+        exact (F64.eq_fin_iff _ _ hfin rfl).mpr (by rw [hc, h180])
+      refine ⟨sy, my, ey, hyf, hbb.1, lt_of_le_of_ne hbb.2 hne, n, hn⟩
+
+/-- an accepted, non-NaN latitude is finite with `|lat| ≤ 90` -/
+theorem lat_accepted (lat : F64) (h1 : F64.gt (F64.abs lat) MathF.qd = false) (h2 : lat.isNaN = false) :
+    ∃ s m e, lat = .fin s m e ∧ |lat.val| ≤ 90 := by
+  cases lat with
+  | nan => simp [F64.isNaN] at h2
+  | inf s => cases s <;> exact absurd h1 (by decide)
+  | fin s m e =>
+    refine ⟨s, m, e, rfl, ?_⟩
+    have h3 : Dy.lt MathF.qd.toDy (F64.abs (F64.fin s m e)).toDy = false := h1
+    have h4 : ¬ (MathF.qd.toDy.val < (F64.abs (F64.fin s m e)).toDy.val) := by
+      rw [← Dy.lt_iff, h3]; simp
+    have h5 : MathF.qd.toDy.val = 90 := by
+      show MathF.qd.val = 90
+      rw [C16.qd_eq, F64.val_fin]; simp
+    have h6 : (F64.abs (F64.fin s m e)).toDy.val = |(F64.fin s m e).val| := F64.val_abs_fin s m e
+    rw [h5, h6] at h4
+    exact not_lt.mp h4
+
+theorem pole_round :
+    (Dy.round53 ⟨90 * (2 ^ 53 - 1), -53⟩).m = 90 * 2 ^ 46 - 1 ∧ (Dy.round53 ⟨90 * (2 ^ 53 - 1), -53⟩).e = -46 := by
+  decide +kernel
+
+/-- `prepLat` of an accepted latitude is finite and in `[−90, 90)` (the pole is moved inside by one ulp) -/
+theorem prepLat_spec (lat : F64) (h1 : F64.gt (F64.abs lat) MathF.qd = false) (h2 : lat.isNaN = false) :
+    ∃ s m e, prepLat lat = .fin s m e ∧ -90 ≤ (prepLat lat).val ∧ (prepLat lat).val < 90 ∧
+      (lat.val ≠ 90 → prepLat lat = lat) := by
+  obtain ⟨s, m, e, hl, hb⟩ := lat_accepted lat h1 h2
+  subst hl
+  have hl : F64.fin s m e = F64.fin s m e := rfl
+  generalize hlat : F64.fin s m e = lat at *
+  have hbb := abs_le.mp hb
+  have h90 : (MathF.qd).val = 90 := by rw [C16.qd_eq, F64.val_fin]; simp
+  have hfin : lat.isFinite = true := by rw [← hlat]; rfl
+  unfold prepLat
+  by_cases hE : F64.eq lat MathF.qd = true
+  · rw [if_pos hE]
+    have hv : lat.val = 90 := by rw [(F64.eq_fin_iff _ _ hfin rfl).mp hE, h90]
+    set c : F64 := .fin false (2 ^ 53 - 1) (-53) with hc
+    set P := Dy.mul lat.toDy c.toDy with hP
+    have hmul : lat * c = F64.rnd P (s != false) := by rw [hP, ← hlat]; rfl
+    have hPv : P.val = (⟨90 * (2 ^ 53 - 1), -53⟩ : Dy).val := by
+      rw [hP, Dy.val_mul]
+      show lat.val * c.val = _
+      rw [hv, hc, F64.val_fin]; simp [Dy.val]; ring
+    have hr : (Dy.round53 P).val = (90 * 2 ^ 46 - 1 : ℚ) * (2:ℚ) ^ (-46 : ℤ) := by
+      have := Dy.roundTo_val_congr 53 (by norm_num) (-1074) P _ hPv
+      show (Dy.roundTo 53 (-1074) P).val = _
+      rw [this]
+      show (Dy.round53 ⟨90 * (2 ^ 53 - 1), -53⟩).val = _
+      unfold Dy.val
+      rw [pole_round.1, pole_round.2]; push_cast; ring
+    have hrv : (Dy.round53 P).val = 90 - (2:ℚ) ^ (-46 : ℤ) := by
+      rw [hr]
+      have : (2:ℚ) ^ (46:ℕ) * (2:ℚ) ^ (-46:ℤ) = 1 := by
+        rw [← zpow_natCast, ← Dy.two_zpow_split]; norm_num
+      linear_combination 90 * this
+    have hpos := Dy.two_zpow_pos (-46)
+    have hsmall : (2:ℚ) ^ (-46 : ℤ) ≤ 1 := by
+      have := Dy.two_zpow_le (show (-46:ℤ) ≤ 0 by norm_num); simpa using this
+    have hB : |(Dy.round53 P).val| < (2:ℚ) ^ (1024:ℤ) := by
+      have : (2:ℚ) ^ (7:ℤ) ≤ (2:ℚ) ^ (1024:ℤ) := Dy.two_zpow_le (by norm_num)
+      have e7 : (2:ℚ) ^ (7:ℤ) = 128 := by norm_num
+      rw [hrv, abs_lt]
+      generalize (2:ℚ) ^ (1024:ℤ) = B at *
+      generalize (2:ℚ) ^ (-46:ℤ) = A at *
+      generalize (2:ℚ) ^ (7:ℤ) = C at *
+      constructor <;> linarith
+    obtain ⟨hf, hval⟩ := F64.rnd_fin P (s != false) hB
+    rw [hmul]
+    obtain ⟨s', m', e', hfe⟩ := F64.exists_fin_of_isFinite _ hf
+    refine ⟨s', m', e', hfe, ?_, ?_, fun hne => absurd hv hne⟩
+    · rw [hval, hrv]; linarith
+    · rw [hval, hrv]; linarith
+  · rw [if_neg hE]
+    have hne : lat.val ≠ 90 := by
+      intro hc; apply hE
+      exact (F64.eq_fin_iff _ _ hfin rfl).mpr (by rw [hc, h90])
+    exact ⟨s, m, e, hlat.symm, hbb.1, lt_of_le_of_ne hbb.2 hne, fun _ => rfl⟩
+
+/-- relation between the exact cell index `n = ⌊a·b⌋` and the coded one `c = ⌊rnd(a·b)⌋`: `n` is the cell of the
+exact product, and `c` is `n`, or `n + 1` when the rounded product is exactly the integer `n + 1` (then the exact
+product is within the rounding error `max(|a·b|·2⁻⁵³, 2⁻¹⁰⁷⁵)` below that integer) — finding F2. -/
+def CellRel (a b : F64) (n c : ℤ) : Prop :=
+  ((n:ℚ) ≤ a.val * b.val ∧ a.val * b.val < (n:ℚ) + 1) ∧
+  (c = n ∨ (c = n + 1 ∧ (a * b).val = (n:ℚ) + 1 ∧
+    (n:ℚ) + 1 - a.val * b.val ≤ max (|a.val * b.val| * (2:ℚ) ^ (-(53:ℤ))) ((2:ℚ) ^ (-(1075:ℤ)))))
+
+theorem cellRel_of_bound (a : F64) (s : Bool) (m : ℕ) (e : ℤ) (ha : a = .fin s m e) (k : ℕ) (hk : |a.val * k| ≤ 2 ^ 52) :
+    CellRel a (.fin false k 0) (F64.mulFloorExact a (.fin false k 0)) (F64.mulFloorCoded a (.fin false k 0)) := by
+  subst ha
+  have hb : (F64.fin false k 0).val = k := by rw [F64.val_fin]; simp
+  have := F64.mulFloor_contains s false m k e 0 (by rw [hb]; exact hk)
+  exact this
+
+
+/-- generic form of the two scale steps (both coordinates), `k = m` the cells per degree -/
+theorem scale_contains_gen (k : ℕ) (hk1 : 1 ≤ k) (hk : (180:ℚ) * k ≤ 2 ^ 52) (lat lon : F64)
+    (h1 : F64.gt (F64.abs lat) MathF.qd = false) (h2 : (lat.isNaN || lon.isNaN) = false) :
+    let b : F64 := .fin false k 0
+    (lon.isFinite = true →
+      CellRel (prepLon lon) b (F64.mulFloorExact (prepLon lon) b) (F64.mulFloorCoded (prepLon lon) b) ∧
+      -180 * (k:ℤ) ≤ F64.mulFloorExact (prepLon lon) b ∧ F64.mulFloorExact (prepLon lon) b < 180 * (k:ℤ)) ∧
+    (lon.isFinite = false → F64.mulFloorCoded (prepLon lon) b = F64.mulFloorExact (prepLon lon) b) ∧
+    CellRel (prepLat lat) b (F64.mulFloorExact (prepLat lat) b) (F64.mulFloorCoded (prepLat lat) b) ∧
+    -90 * (k:ℤ) ≤ F64.mulFloorExact (prepLat lat) b ∧ F64.mulFloorExact (prepLat lat) b < 90 * (k:ℤ) := by
+  intro b
+  have hnan : lat.isNaN = false := by
+    cases h : lat.isNaN <;> simp_all
+  have hb : b.val = k := by rw [F64.val_fin]; simp
+  have hk0 : (0:ℚ) < k := by exact_mod_cast hk1
+  refine ⟨?_, ?_, ?_⟩
+  · intro hf
+    rcases prepLon_spec lon with ⟨hf', _⟩ | ⟨_, s, m, e, hp, hlo, hhi, _⟩
+    · rw [hf] at hf'; exact absurd hf' (by decide)
+    · have hB : |(prepLon lon).val * (k:ℚ)| ≤ 2 ^ 52 := by
+        rw [abs_le]; constructor <;> nlinarith
+      have hc := cellRel_of_bound (prepLon lon) s m e hp k hB
+      refine ⟨hc, ?_, ?_⟩
+      · obtain ⟨⟨c1, c2⟩, _⟩ := hc
+        rw [hb] at c1 c2
+        have : ((-180 * (k:ℤ) - 1 : ℤ) : ℚ) < ((F64.mulFloorExact (prepLon lon) b : ℤ) : ℚ) := by
+          push_cast; nlinarith
+        have : -180 * (k:ℤ) - 1 < F64.mulFloorExact (prepLon lon) b := by exact_mod_cast this
+        omega
+      · obtain ⟨⟨c1, c2⟩, _⟩ := hc
+        rw [hb] at c1 c2
+        have : ((F64.mulFloorExact (prepLon lon) b : ℤ) : ℚ) < ((180 * (k:ℤ) : ℤ) : ℚ) := by
+          have := mul_lt_mul_of_pos_right hhi hk0
+          push_cast; linarith
+        exact_mod_cast this
+  · intro hf
+    rcases prepLon_spec lon with ⟨_, hp⟩ | ⟨hf', _⟩
+    · rw [hp]
+      have l : F64.mulFloorCoded .nan b = 0 := rfl
+      have r : F64.mulFloorExact .nan b = 0 := by
+        simp [F64.mulFloorExact, F64.toDy, Dy.mul, Dy.floor, Dy.shl]
+      rw [l, r]
+    · rw [hf] at hf'; exact absurd hf' (by decide)
+  · obtain ⟨s, m, e, hp, hlo, hhi, _⟩ := prepLat_spec lat h1 hnan
+    have hB : |(prepLat lat).val * (k:ℚ)| ≤ 2 ^ 52 := by
+      rw [abs_le]; constructor <;> nlinarith
+    have hc := cellRel_of_bound (prepLat lat) s m e hp k hB
+    refine ⟨hc, ?_, ?_⟩
+    · obtain ⟨⟨c1, c2⟩, _⟩ := hc
+      rw [hb] at c1 c2
+      have : ((-90 * (k:ℤ) - 1 : ℤ) : ℚ) < ((F64.mulFloorExact (prepLat lat) b : ℤ) : ℚ) := by
+        push_cast; nlinarith
+      have : -90 * (k:ℤ) - 1 < F64.mulFloorExact (prepLat lat) b := by exact_mod_cast this
+      omega
+    · obtain ⟨⟨c1, c2⟩, _⟩ := hc
+      rw [hb] at c1 c2
+      have : ((F64.mulFloorExact (prepLat lat) b : ℤ) : ℚ) < ((90 * (k:ℤ) : ℤ) : ℚ) := by
+        have := mul_lt_mul_of_pos_right hhi hk0
+        push_cast; linarith
+      exact_mod_cast this
+
+/-- **`scale_contains`, GARS** (every accepted, non-NaN input).  `scaleExact` and `scale` both succeed; in each
+coordinate the exact cell index is the cell of the prepared point `(prepLon lon, prepLat lat)` — `X ≤ (lon+180)·m < X+1`
+in the form `CellRel.1` — it lies in the valid range, and the coded index is the exact one or its upper neighbour in
+the precise circumstance of `CellRel` (finding F2).  For an infinite longitude both give the same column. -/
+theorem gars_scale_contains (lat lon : F64) (h1 : F64.gt (F64.abs lat) MathF.qd = false)
+    (h2 : (lat.isNaN || lon.isNaN) = false) :
+    ∃ X Y X' Y' : ℤ, GARS.scaleExact lat lon = .ok (some (X, Y)) ∧ GARS.scale lat lon = .ok (some (X', Y')) ∧
+      (lon.isFinite = true →
+        CellRel (prepLon lon) (F64.ofInt GARS.m) (X + gars_lonorig * GARS.m) (X' + gars_lonorig * GARS.m) ∧
+        0 ≤ X ∧ X < 360 * GARS.m) ∧
+      (lon.isFinite = false → X' = X) ∧
+      CellRel (prepLat lat) (F64.ofInt GARS.m) (Y + gars_latorig * GARS.m) (Y' + gars_latorig * GARS.m) ∧
+      0 ≤ Y ∧ Y < 180 * GARS.m := by
+  have hm : F64.ofInt GARS.m = .fin false 12 0 := rfl
+  obtain ⟨g1, g2, g3, g4, g5⟩ := scale_contains_gen 12 (by norm_num) (by norm_num) lat lon h1 h2
+  refine ⟨F64.mulFloorExact (prepLon lon) (F64.ofInt GARS.m) - gars_lonorig * GARS.m,
+          F64.mulFloorExact (prepLat lat) (F64.ofInt GARS.m) - gars_latorig * GARS.m,
+          F64.mulFloorCoded (prepLon lon) (F64.ofInt GARS.m) - gars_lonorig * GARS.m,
+          F64.mulFloorCoded (prepLat lat) (F64.ofInt GARS.m) - gars_latorig * GARS.m, ?_, ?_, ?_, ?_, ?_⟩
+  · rw [gars_scaleExact_eq, gars_scaleWith_eq, h1, h2]; rfl
+  · rw [gars_scale_eq, gars_scaleWith_eq, h1, h2]; rfl
+  · intro hf
+    obtain ⟨a1, a2, a3⟩ := g1 hf
+    rw [Int.sub_add_cancel, Int.sub_add_cancel, hm]
+    refine ⟨a1, ?_, ?_⟩
+    · show 0 ≤ F64.mulFloorExact (prepLon lon) (F64.fin false 12 0) - (-180) * 12
+      push_cast at a2; omega
+    · show F64.mulFloorExact (prepLon lon) (F64.fin false 12 0) - (-180) * 12 < 360 * 12
+      push_cast at a3; omega
+  · intro hf; rw [hm, g2 hf]
+  · rw [Int.sub_add_cancel, Int.sub_add_cancel, hm]
+    refine ⟨g3, ?_, ?_⟩
+    · show 0 ≤ F64.mulFloorExact (prepLat lat) (F64.fin false 12 0) - (-90) * 12
+      push_cast at g4; omega
+    · show F64.mulFloorExact (prepLat lat) (F64.fin false 12 0) - (-90) * 12 < 180 * 12
+      push_cast at g5; omega
+
+/-- `scale` and `scaleExact` reject / return "INVALID" on exactly the same inputs (GARS) -/
+theorem gars_scale_shape (lat lon : F64) :
+    (∀ e, GARS.scale lat lon = .error e ↔ GARS.scaleExact lat lon = .error e) ∧
+    (GARS.scale lat lon = .ok none ↔ GARS.scaleExact lat lon = .ok none) := by
+  rw [gars_scale_eq, gars_scaleExact_eq, gars_scaleWith_eq, gars_scaleWith_eq]
+  by_cases h1 : F64.gt (F64.abs lat) MathF.qd = true
+  · simp [h1]
+  · by_cases h2 : (lat.isNaN || lon.isNaN) = true
+    · simp only [h1, h2, if_true, Bool.false_eq_true, if_false]; simp
+    · simp only [h1, h2, Bool.false_eq_true, if_false]
+      constructor
+      · intro e; constructor <;> intro h <;> cases h
+      · constructor <;> intro h <;> cases h
+
+/-- **`scale = scaleExact` whenever both products are representable** (GARS) -/
+theorem gars_scale_exact_of_representable (lat lon : F64) (h1 : F64.gt (F64.abs lat) MathF.qd = false)
+    (h2 : (lat.isNaN || lon.isNaN) = false) (hf : lon.isFinite = true)
+    (hx : (Dy.round53 (Dy.mul (prepLon lon).toDy (F64.ofInt GARS.m).toDy)).val = (prepLon lon).val * (F64.ofInt GARS.m).val)
+    (hy : (Dy.round53 (Dy.mul (prepLat lat).toDy (F64.ofInt GARS.m).toDy)).val = (prepLat lat).val * (F64.ofInt GARS.m).val) :
+    GARS.scale lat lon = GARS.scaleExact lat lon := by
+  have hm : F64.ofInt GARS.m = .fin false 12 0 := rfl
+  have hb : (F64.fin false 12 0).val = 12 := by rw [F64.val_fin]; simp
+  have hnan : lat.isNaN = false := by
+    cases h : lat.isNaN <;> simp_all
+  rw [gars_scale_eq, gars_scaleExact_eq, gars_scaleWith_eq, gars_scaleWith_eq, h1, h2]
+  simp only [Bool.false_eq_true, if_false]
+  rw [hm] at hx hy ⊢
+  have e52 : (2:ℚ) ^ 52 = 4503599627370496 := by norm_num
+  have ex : F64.mulFloorCoded (prepLon lon) (.fin false 12 0) = F64.mulFloorExact (prepLon lon) (.fin false 12 0) := by
+    rcases prepLon_spec lon with ⟨hf', _⟩ | ⟨_, s, m, e, hp, hlo, hhi, _⟩
+    · rw [hf] at hf'; exact absurd hf' (by decide)
+    · rw [hp] at hx ⊢
+      rw [hp] at hlo hhi
+      exact F64.mulFloor_exact_of_representable s false m 12 e 0
+        (by rw [hb, e52, abs_le]; constructor <;> linarith) hx
+  have ey : F64.mulFloorCoded (prepLat lat) (.fin false 12 0) = F64.mulFloorExact (prepLat lat) (.fin false 12 0) := by
+    obtain ⟨s, m, e, hp, hlo, hhi, _⟩ := prepLat_spec lat h1 hnan
+    rw [hp] at hy ⊢
+    rw [hp] at hlo hhi
+    exact F64.mulFloor_exact_of_representable s false m 12 e 0
+      (by rw [hb, e52, abs_le]; constructor <;> linarith) hy
+  rw [ex, ey]
+
+/-- **`scale_contains`, Georef** — the same statement; `m = 6·10¹⁰` -/
+theorem georef_scale_contains (lat lon : F64) (h1 : F64.gt (F64.abs lat) MathF.qd = false)
+    (h2 : (lat.isNaN || lon.isNaN) = false) :
+    ∃ X Y X' Y' : ℤ, Georef.scaleExact lat lon = .ok (some (X, Y)) ∧ Georef.scale lat lon = .ok (some (X', Y')) ∧
+      (lon.isFinite = true →
+        CellRel (prepLon lon) (F64.ofInt Georef.m) (X + georef_lonorig * Georef.m) (X' + georef_lonorig * Georef.m) ∧
+        0 ≤ X ∧ X < 360 * Georef.m) ∧
+      (lon.isFinite = false → X' = X) ∧
+      CellRel (prepLat lat) (F64.ofInt Georef.m) (Y + georef_latorig * Georef.m) (Y' + georef_latorig * Georef.m) ∧
+      0 ≤ Y ∧ Y < 180 * Georef.m := by
+  have hm : F64.ofInt Georef.m = .fin false 60000000000 0 := rfl
+  obtain ⟨g1, g2, g3, g4, g5⟩ := scale_contains_gen 60000000000 (by norm_num) (by norm_num) lat lon h1 h2
+  have hs : ∀ mulf, Georef.scaleWith mulf lat lon =
+      .ok (some (mulf (prepLon lon) (F64.ofInt Georef.m) - georef_lonorig * Georef.m,
+                 mulf (prepLat lat) (F64.ofInt Georef.m) - georef_latorig * Georef.m)) := by
+    intro mulf
+    have : Georef.scaleWith mulf lat lon =
+      if F64.gt (F64.abs lat) MathF.qd then .error "lat" else
+      if lat.isNaN || lon.isNaN then .ok none else
+      .ok (some (mulf (prepLon lon) (F64.ofInt Georef.m) - georef_lonorig * Georef.m,
+                 mulf (prepLat lat) (F64.ofInt Georef.m) - georef_latorig * Georef.m)) := rfl
+    rw [this, h1, h2]; rfl
+  refine ⟨F64.mulFloorExact (prepLon lon) (F64.ofInt Georef.m) - georef_lonorig * Georef.m,
+          F64.mulFloorExact (prepLat lat) (F64.ofInt Georef.m) - georef_latorig * Georef.m,
+          F64.mulFloorCoded (prepLon lon) (F64.ofInt Georef.m) - georef_lonorig * Georef.m,
+          F64.mulFloorCoded (prepLat lat) (F64.ofInt Georef.m) - georef_latorig * Georef.m,
+          hs F64.mulFloorExact, hs F64.mulFloorCoded, ?_, ?_, ?_⟩
+  · intro hf
+    obtain ⟨a1, a2, a3⟩ := g1 hf
+    rw [Int.sub_add_cancel, Int.sub_add_cancel, hm]
+    refine ⟨a1, ?_, ?_⟩
+    · show 0 ≤ F64.mulFloorExact (prepLon lon) (F64.fin false 60000000000 0) - (-180) * 60000000000
+      push_cast at a2; omega
+    · show F64.mulFloorExact (prepLon lon) (F64.fin false 60000000000 0) - (-180) * 60000000000 < 360 * 60000000000
+      push_cast at a3; omega
+  · intro hf; rw [hm, g2 hf]
+  · rw [Int.sub_add_cancel, Int.sub_add_cancel, hm]
+    refine ⟨g3, ?_, ?_⟩
+    · show 0 ≤ F64.mulFloorExact (prepLat lat) (F64.fin false 60000000000 0) - (-90) * 60000000000
+      push_cast at g4; omega
+    · show F64.mulFloorExact (prepLat lat) (F64.fin false 60000000000 0) - (-90) * 60000000000 < 180 * 60000000000
+      push_cast at g5; omega
+
+/-! non-vacuity: the F2 witness `GARS::Forward(-89.916666666666671, 0.5)` — accepted, exact row 0, coded row 1 -/
+example : F64.gt (F64.abs (.fin true 6327322913974955 (-46))) MathF.qd = false := by decide +kernel
+example : (match GARS.scaleExact (.fin true 6327322913974955 (-46)) (.fin false 1 (-1)),
+                 GARS.scale (.fin true 6327322913974955 (-46)) (.fin false 1 (-1)) with
+    | .ok (some (X, Y)), .ok (some (X', Y')) => decide (X = 2166 ∧ Y = 0 ∧ X' = 2166 ∧ Y' = 1)
+    | _, _ => false) = true := by decide +kernel
+/-- a representable product: `lat = 45.5`, `lon = 0.25` -/
+example : (Dy.round53 (Dy.mul (prepLat (.fin false 91 (-1))).toDy (F64.ofInt GARS.m).toDy)).m = 1092 := by decide +kernel
 
 /-! ### non-vacuity: concrete codes -/
 example : String.ofList (GARS.encodeInt (4320 / 2 + 7) (2160 / 2 + 5) 2) = "362HN12" := by decide
